@@ -137,8 +137,10 @@ def vec_layout(f, target_pred=None, must_targets=None):
         items = [it for it in items if any(x in f.reachable(it['block'], removed_edges=inf) for x in rets)]
         seen = {}
         kept = []
+        nth = {}
         for it in items:
-            k_ = (f.origin(it['block']), it['op'], it['recv'] if not isinstance(it['recv'], tuple) else None, short(it['value']))
+            nth[it['block']] = nth.get(it['block'], 0) + 1          # several items of one block (concat parts) are distinct items
+            k_ = (f.origin(it['block']), nth[it['block']], it['op'], it['recv'] if not isinstance(it['recv'], tuple) else None, short(it['value']))
             if k_ in seen:
                 seen[k_]['copies'].append(it['block'])
                 continue
